@@ -3,7 +3,7 @@ import ast
 
 from sa.loader import AnalysisError, norm, walk_local
 from sa.cfg import cfg_of
-from .common import element_sources, analysis, names_in, str_consts_compared, isinstance_types, true_facts, conjuncts, ne_texts, eq_texts
+from .common import element_sources, ifexp_alternatives, analysis, names_in, str_consts_compared, isinstance_types, true_facts, conjuncts, ne_texts, eq_texts
 from . import c17
 
 PROP = "C15"
@@ -142,11 +142,14 @@ def run(ctx):
     ri = decJ.methods["read_index"]
     ok = sum(1 for n in walk_local(ri.node) if isinstance(n, ast.Assign) and norm(n) == "label = 'null'") == 2 and sum(1 for n in walk_local(ri.node) if isinstance(n, ast.Call) and n.func.__class__ is ast.Attribute and n.func.attr == "popitem") == 2 and any(norm(n) == "index = alternative_symbol.labels.index(label)" for n in walk_local(ri.node) if isinstance(n, ast.Assign))
     ctx.check("C15.R6", "decoder: None -> 'null', otherwise the single key is the branch label looked up in the alternative's labels", ok, ri.where(), "read_index", "the decoder does not unwrap {label: value} symmetrically")
-    alts = [n for n in walk_local(pp.node) if isinstance(n, ast.Call) and norm(n.func) == "Alternative" and len(n.args) >= 2 and isinstance(n.args[1], ast.Name)]
+    alts = [n for n in walk_local(pp.node) if isinstance(n, ast.Call) and norm(n.func) == "Alternative" and len(n.args) >= 2 and isinstance(n.args[1], (ast.Name, ast.ListComp))]
     if len(alts) != 1:
-        ctx.unrecognised("C15.R6", "Parser._parse", pp.where(), f"{len(alts)} Alternative(symbols, <labels variable>) constructions")
+        ctx.unrecognised("C15.R6", "Parser._parse", pp.where(), f"{len(alts)} Alternative(symbols, <labels>) constructions with computed labels")
     else:
-        texts = element_sources(pp.node, alts[0].args[1].id)
+        if isinstance(alts[0].args[1], ast.Name):
+            texts = element_sources(pp.node, alts[0].args[1].id)
+        else:
+            texts = {norm(x) for x in ifexp_alternatives(alts[0].args[1].elt)}
         # the loop variable ranging over the union's branches
         loopvars = {norm(n.target) for n in ast.walk(pp.node) if isinstance(n, (ast.For, ast.comprehension)) and norm(n.iter) == pp.pos_params[1]}
         want = set()
